@@ -55,7 +55,7 @@ func arOperand(r *rng) int64 {
 	case 6:
 		return int64(int32(r.next())) // 32-bit
 	case 7:
-		return int64(r.next() >> uint(1+r.intn(63))) * int64(1-2*r.intn(2)) // random bit length
+		return int64(r.next()>>uint(1+r.intn(63))) * int64(1-2*r.intn(2)) // random bit length
 	default:
 		return int64(r.next()) // any 64-bit pattern
 	}
@@ -103,4 +103,430 @@ func arPair(r *rng, op string) (int64, int64) {
 		}
 		return a, a + d
 	}
+}
+
+// ---------------------------------------------------------------- generation: literal texts
+
+var arFixedLits = []string{
+	"0", "-0", "00", "007", "017", "08", "09", "0_7", "0_", "_0", "1_000", "1__0", "1_", "_1", "-_1", "-1_0",
+	"0x", "0X", "0b", "0o", "0x_1", "0_x1", "0x1_", "0x__1", "0b2", "0o8", "0xg", "0XfF", "0B101", "0O17", "0b101", "0o17",
+	"0x7fffffffffffffff", "0x8000000000000000", "-0x8000000000000000", "-0x8000000000000001", "0xffffffffffffffff",
+	"0x10000000000000000", "0x0000000000000000000000001", "0b" + strings.Repeat("1", 63), "0b" + strings.Repeat("1", 64),
+	"-0b1" + strings.Repeat("0", 63), "0o777777777777777777777", "0o1000000000000000000000", "-0o1000000000000000000000",
+	"0777777777777777777777", "01000000000000000000000", "-01000000000000000000000", "01777777777777777777777", "02000000000000000000000",
+	"9223372036854775807", "9223372036854775808", "-9223372036854775808", "-9223372036854775809",
+	"18446744073709551615", "18446744073709551616", "99999999999999999999", "-99999999999999999999",
+	"9_223_372_036_854_775_807", "9_223_372_036_854_775_808", "-9_223_372_036_854_775_808",
+	"1a", "12abc", "1.", "1.5", ".5", "1e3", "0x1p4", "+1", "-", "--1", "-+1", "- 1", " 42 ", "42 ;c", "(42)", "42 43", "", "1e400",
+	"99999999999999999999z", "0x1g", "123456789012345678901234567890",
+}
+
+var big63 = new(big.Int).Lsh(big.NewInt(1), 63)
+var big64 = new(big.Int).Lsh(big.NewInt(1), 64)
+
+// a number at an interesting magnitude
+func arBig(r *rng) *big.Int {
+	v := new(big.Int)
+	switch r.intn(6) {
+	case 0:
+		v.Set(big63)
+	case 1:
+		v.Set(big64)
+	case 2:
+		v.SetInt64(arEdges[r.intn(len(arEdges))])
+	case 3:
+		v.SetUint64(r.next())
+	case 4:
+		v.SetUint64(r.next() >> uint(r.intn(64)))
+	default:
+		v.SetUint64(r.next())
+		v.Lsh(v, uint(r.intn(8)))
+	}
+	v.Add(v, big.NewInt(int64(r.intn(5))-2))
+	return v.Abs(v)
+}
+
+// the number written the way a Go literal may be: base prefix (either case), leading zeros, underscores
+func arLiteral(r *rng) string {
+	v := arBig(r)
+	var pre, digits string
+	switch r.intn(8) {
+	case 0:
+		pre, digits = r.pick([]string{"0x", "0X"}), v.Text(16)
+		if r.chance(1, 2) {
+			digits = strings.ToUpper(digits)
+		}
+	case 1:
+		pre, digits = r.pick([]string{"0b", "0B"}), v.Text(2)
+	case 2:
+		pre, digits = r.pick([]string{"0o", "0O"}), v.Text(8)
+	case 3:
+		pre, digits = "0", v.Text(8)
+	default:
+		digits = v.Text(10)
+	}
+	if pre != "" && r.chance(1, 6) {
+		digits = strings.Repeat("0", 1+r.intn(3)) + digits
+	}
+	if r.chance(1, 4) { // underscores, mostly well placed
+		var b strings.Builder
+		for i, c := range digits {
+			if i > 0 && r.chance(1, 3) {
+				b.WriteByte('_')
+			}
+			b.WriteRune(c)
+		}
+		digits = b.String()
+		if pre != "" && r.chance(1, 3) {
+			digits = "_" + digits
+		}
+	}
+	s := pre + digits
+	if r.chance(1, 2) {
+		s = "-" + s
+	}
+	return s
+}
+
+var arNoise = []string{"_", "__", "x", "0", "9", "8", "g", "z", "F", "-", "+", " ", ".", "é", "\x80", "o", "b", "e"}
+
+func arLitText(r *rng, forParseInt bool) string {
+	switch r.intn(10) {
+	case 0, 1:
+		return r.pick(arFixedLits)
+	case 2, 3: // one edit of a well-formed literal
+		s := arLiteral(r)
+		p := r.intn(len(s) + 1)
+		n := r.pick(arNoise)
+		if !forParseInt && (n == "é" || n == "\x80") {
+			n = "_"
+		}
+		if r.chance(1, 3) && p < len(s) {
+			return s[:p] + s[p+1:]
+		}
+		return s[:p] + n + s[p:]
+	case 4:
+		if forParseInt {
+			return "+" + strings.TrimPrefix(arLiteral(r), "-")
+		}
+		return arLiteral(r)
+	default:
+		return arLiteral(r)
+	}
+}
+
+// ---------------------------------------------------------------- generation: cases
+
+func (e *arithEngine) generate(r *rng, n int, tier string, emit func(string)) {
+	i64 := func(v int64) string { return strconv.FormatInt(v, 10) }
+	// fixed head: every operator on the classic edge pairs, every fixed literal through both literal routes
+	edgePairs := [][2]int64{
+		{math.MaxInt64, 1}, {math.MinInt64, 1}, {math.MinInt64, -1}, {math.MaxInt64, -1}, {math.MinInt64, math.MinInt64},
+		{math.MaxInt64, math.MaxInt64}, {math.MinInt64, math.MaxInt64}, {0, 0}, {5, 0}, {0, 5}, {-7, 2}, {7, -2}, {-7, -2},
+		{1 << 32, 1 << 32}, {1 << 31, 1 << 32}, {3037000500, 3037000500}, {3037000499, 3037000499}, {math.MinInt64, 2}, {math.MinInt64, 0},
+	}
+	for _, op := range arOps {
+		for _, p := range edgePairs {
+			emit("op " + op + " " + i64(p[0]) + " " + i64(p[1]))
+		}
+	}
+	for _, s := range arFixedLits {
+		emit("lit " + hex.EncodeToString([]byte(s)))
+		emit("pi " + hex.EncodeToString([]byte(s)))
+	}
+	for _, v := range []int64{0, 1, -1, math.MaxInt64, math.MinInt64, math.MinInt64 + 1, math.MaxInt64 - 1} {
+		emit("rt " + i64(v))
+	}
+	for i := 0; i < n; i++ {
+		switch k := r.intn(20); {
+		case k < 11:
+			op := r.pick(arOps)
+			a, b := arPair(r, op)
+			if r.chance(1, 2) && (op == "+" || op == "*" || op[0] == '<' || op[0] == '>') {
+				a, b = b, a
+			}
+			emit("op " + op + " " + i64(a) + " " + i64(b))
+		case k < 12:
+			// arity / argument kinds: 0…3 arguments, ints and non-ints
+			args := []string{}
+			for j, m := 0, r.intn(4); j < m; j++ {
+				if r.chance(2, 3) {
+					args = append(args, i64(arOperand(r)))
+				} else {
+					args = append(args, r.pick([]string{"nil", "t", "s"}))
+				}
+			}
+			emit(strings.TrimSpace("opx " + r.pick(arOps) + " " + strings.Join(args, " ")))
+		case k < 15:
+			emit("lit " + hex.EncodeToString([]byte(arLitText(r, false))))
+		case k < 17:
+			emit("pi " + hex.EncodeToString([]byte(arLitText(r, true))))
+		case k < 19:
+			emit("rt " + i64(arOperand(r)))
+		default:
+			a := arOperand(r)
+			d := int64(r.intn(9)) - 2
+			if a > math.MaxInt64-8 {
+				a = math.MaxInt64 - int64(r.intn(8))
+				if d > math.MaxInt64-a {
+					d = math.MaxInt64 - a
+				}
+			}
+			if d < 0 && a < math.MinInt64-d {
+				d = 0 // a + d must not wrap: the span would be 2^64 - |d| elements
+			}
+			emit("range " + i64(a) + " " + i64(a+d))
+		}
+	}
+}
+
+// ---------------------------------------------------------------- run
+
+func arFreshEnv() (EnvType, error) { return freshEnv(&evalCase{}) }
+
+func arRender(v MalType) string {
+	switch v := v.(type) {
+	case int:
+		return "ok " + lisp.PRINT(v)
+	case bool:
+		if v {
+			return "ok T"
+		}
+		return "ok F"
+	}
+	return "other"
+}
+
+// (sym args…) through the evaluator, from an AST built in Go and — when every argument has a text — from the text
+// read by the real reader; both routes must agree
+func arCall(op string, args []MalType) string {
+	env, err := arFreshEnv()
+	if err != nil {
+		return "setup-error " + oneLine(err.Error())
+	}
+	ast := List{Val: append([]MalType{Symbol{Val: op}}, args...)}
+	viaAst := "err"
+	if res, err := lisp.EVAL(context.Background(), ast, env); err == nil {
+		viaAst = arRender(res)
+	}
+	texts := make([]string, len(args))
+	for i, a := range args {
+		texts[i] = lisp.PRINT(a)
+	}
+	src := strings.TrimSpace("("+op+" "+strings.Join(texts, " ")) + ")"
+	viaText := "err"
+	form, err := lisp.READ(src, nil, env)
+	if err != nil {
+		return "inconsistent: " + oneLine(src) + " does not read: " + oneLine(err.Error())
+	}
+	if res, err := lisp.EVAL(context.Background(), form, env); err == nil {
+		viaText = arRender(res)
+	}
+	if viaAst != viaText {
+		return "inconsistent: ast " + viaAst + " / text " + viaText
+	}
+	return viaAst
+}
+
+func (e *arithEngine) run(payload string) string {
+	f := strings.Fields(payload)
+	if len(f) == 0 {
+		return "bad-case"
+	}
+	p64 := func(s string) (int, bool) {
+		v, err := strconv.ParseInt(s, 10, 64)
+		return int(v), err == nil
+	}
+	switch f[0] {
+	case "op":
+		if len(f) != 4 {
+			return "bad-case"
+		}
+		a, ok1 := p64(f[2])
+		b, ok2 := p64(f[3])
+		if !ok1 || !ok2 {
+			return "bad-case"
+		}
+		return arCall(f[1], []MalType{a, b})
+	case "opx":
+		if len(f) < 2 {
+			return "bad-case"
+		}
+		args := []MalType{}
+		for _, t := range f[2:] {
+			switch t {
+			case "nil":
+				args = append(args, nil)
+			case "t":
+				args = append(args, true)
+			case "s":
+				args = append(args, "x")
+			default:
+				v, ok := p64(t)
+				if !ok {
+					return "bad-case"
+				}
+				args = append(args, v)
+			}
+		}
+		return arCall(f[1], args)
+	case "lit", "pi":
+		text := ""
+		if len(f) == 2 {
+			b, err := hex.DecodeString(f[1])
+			if err != nil {
+				return "bad-case"
+			}
+			text = string(b)
+		} else if len(f) != 1 {
+			return "bad-case"
+		}
+		if f[0] == "pi" {
+			v, err := strconv.ParseInt(text, 0, 0)
+			switch {
+			case err == nil:
+				return "ok " + strconv.FormatInt(v, 10)
+			case errors.Is(err, strconv.ErrRange):
+				return "err range"
+			default:
+				return "err syntax"
+			}
+		}
+		v, err := lisp.READ(text, nil, nil)
+		if err != nil {
+			return "err"
+		}
+		if i, ok := v.(int); ok {
+			return "ok " + lisp.PRINT(i)
+		}
+		return "other"
+	case "rt":
+		if len(f) != 2 {
+			return "bad-case"
+		}
+		v, ok := p64(f[1])
+		if !ok {
+			return "bad-case"
+		}
+		text := lisp.PRINT(v)
+		back, err := lisp.READ(text, nil, nil)
+		if err != nil {
+			return "err " + text
+		}
+		if _, ok := back.(int); !ok {
+			return "err " + text
+		}
+		return "ok " + text + " " + lisp.PRINT(back)
+	case "range":
+		if len(f) != 3 {
+			return "bad-case"
+		}
+		a, ok1 := p64(f[1])
+		b, ok2 := p64(f[2])
+		if !ok1 || !ok2 || (b > a && uint64(b)-uint64(a) > 4096) {
+			return "bad-case"
+		}
+		env, err := arFreshEnv()
+		if err != nil {
+			return "setup-error " + oneLine(err.Error())
+		}
+		res, err := lisp.EVAL(context.Background(), List{Val: []MalType{Symbol{Val: "range"}, a, b}}, env)
+		if err != nil {
+			return "err"
+		}
+		vec, ok := res.(Vector)
+		if !ok {
+			return "other"
+		}
+		first, last := "-", "-"
+		if len(vec.Val) > 0 {
+			first, last = lisp.PRINT(vec.Val[0]), lisp.PRINT(vec.Val[len(vec.Val)-1])
+		}
+		return "ok " + strconv.Itoa(len(vec.Val)) + " " + first + " " + last
+	}
+	return "bad-case"
+}
+
+// ---------------------------------------------------------------- classes
+
+// class label: the request kind, the operator, and where the TRUE (unbounded) result lies
+func (e *arithEngine) classify(payload, obs string) string {
+	f := strings.Fields(payload)
+	if len(f) == 0 {
+		return "bad"
+	}
+	res := obs
+	if i := strings.IndexByte(res, ' '); i >= 0 && f[0] != "pi" {
+		res = res[:i]
+	}
+	switch f[0] {
+	case "op":
+		if len(f) != 4 {
+			return "bad"
+		}
+		a, ok1 := new(big.Int).SetString(f[2], 10)
+		b, ok2 := new(big.Int).SetString(f[3], 10)
+		if !ok1 || !ok2 {
+			return "bad"
+		}
+		t := new(big.Int)
+		switch f[1] {
+		case "+":
+			t.Add(a, b)
+		case "-":
+			t.Sub(a, b)
+		case "*":
+			t.Mul(a, b)
+		case "/":
+			if b.Sign() == 0 {
+				return "op/:div0:" + res
+			}
+			t.Quo(a, b)
+		default:
+			return "op" + f[1] + ":cmp"
+		}
+		where := "exact"
+		if !t.IsInt64() {
+			where = "wraps"
+		}
+		return "op" + f[1] + ":" + where + ":" + res
+	case "opx":
+		ints := 0
+		for _, t := range f[2:] {
+			if _, err := strconv.ParseInt(t, 10, 64); err == nil {
+				ints++
+			}
+		}
+		return "opx:" + strconv.Itoa(len(f)-2) + "args," + strconv.Itoa(ints) + "ints:" + res
+	case "lit", "pi":
+		shape := "dec"
+		if len(f) == 2 {
+			if b, err := hex.DecodeString(f[1]); err == nil {
+				s := strings.TrimLeft(string(b), "+-")
+				switch {
+				case len(s) >= 2 && s[0] == '0' && (s[1] == 'x' || s[1] == 'X'):
+					shape = "hex"
+				case len(s) >= 2 && s[0] == '0' && (s[1] == 'b' || s[1] == 'B'):
+					shape = "bin"
+				case len(s) >= 2 && s[0] == '0' && (s[1] == 'o' || s[1] == 'O'):
+					shape = "0o"
+				case len(s) >= 2 && s[0] == '0':
+					shape = "0oct"
+				}
+				if strings.Contains(s, "_") {
+					shape += "_"
+				}
+			}
+		}
+		if f[0] == "pi" {
+			if strings.HasPrefix(obs, "ok ") {
+				return "pi:" + shape + ":ok"
+			}
+			return "pi:" + shape + ":" + obs
+		}
+		return "lit:" + shape + ":" + res
+	case "rt", "range":
+		return f[0] + ":" + res
+	}
+	return "bad"
 }
